@@ -354,6 +354,36 @@ func ruleCondContext(c *Ctx) {
 		{ID: "getContractGroups", Fn: [3]string{rt, "", "getContractGroups"}, Target: "call:pkg/core/interop.(*Context).GetContract",
 			Guards: []Guard{{ID: "read-states", Doc: "group lookup needs the ReadStates flag", Alts: [][]string{{"pkg/smartcontract/callflag.ReadStates", symHas}}}}},
 	})
+	// group answers are looked up for the very contract asked about, on every call: every use of a contract's groups
+	// in the runtime package is preceded by getContractGroups in the same function (no answer reused across contracts)
+	if rp := c.P.Pkg(rt); rp != nil {
+		nuse := 0
+		for _, d := range c.P.AllFuncDecls() {
+			if d.Pkg != rp || d.Decl.Body == nil {
+				continue
+			}
+			ff := c.P.NewFuncCFG(d)
+			uses := ff.CallSites("pkg/smartcontract/manifest.(Groups).Contains")
+			if len(uses) == 0 {
+				continue
+			}
+			nuse += len(uses)
+			ok, path := ff.CheckMustCall(ff.Entry(), blocksOf(uses), nil, "pkg/core/interop/runtime.getContractGroups")
+			key := "groups-fresh." + FuncKey(d.Obj)
+			if ok {
+				c.OK(key, c.P.Pos(d.Decl.Pos()), "the groups consulted are fetched by getContractGroups on every path of this call")
+			} else {
+				c.Fail(key, c.P.Pos(d.Decl.Pos()), FuncKey(d.Obj)+" can answer a group question without fetching the groups of the contract asked about (a remembered answer of another contract is reused)", path...)
+			}
+		}
+		c.Floor("uses of contract groups in the runtime package", nuse, 1)
+	}
+	// entry relation: a context's calling context is linked whenever there is a parent context
+	runGates(c, []GateSpec{{
+		ID: "vm.load.calling-context", Fn: [3]string{"pkg/vm", "VM", "loadScriptWithCallingHash"}, Target: "write:pkg/vm#istack",
+		Assume:   &Assume{Conds: []AssumeCond{{Mentions: []string{"local:parent"}, Val: true}}},
+		MustNode: [][]string{{"pkg/vm#callingContext", "local:parent"}},
+	}})
 	// the rule's verdict is Action == WitnessAllow
 	fd := c.P.Func(rt, "", "checkScope")
 	if fd != nil {
